@@ -99,3 +99,67 @@ def run_corr(ctx, sources, log, budget=20000, stages=("compile", "eval"), shard_
         ctx.disagree("compiler" if st == "compile" else "vm", source=sources[i], impl=impl, model=model)
     log("%s: %d sources x %s in Coq, %d disagreements" % (label, len(sources), "+".join(stages), len(bad_global)))
     return obs
+
+
+FUN_RE = re.compile(r"(?<![0-9a-fA-F#=S.])f\d+\.\d+")
+
+
+def canon_sem(o):
+    """implementation observation -> what Sem.v renders: result (functions as `fn`), output"""
+    parts = o.split(" | ")
+    if len(parts) < 2:
+        return o
+    res, out = parts[0], parts[1]
+    if res.startswith("OK "):
+        res = canon_eval(o).split(" | ")[0]
+        res = FUN_RE.sub("fn", res)
+    return res + " | " + out
+
+
+def run_sem(ctx, sources, obs_eval, log, fuel=3000, shard_size=100, label="sem", with_value=None, oracle_extra=None):
+    """Specification oracle: the implementation's observation of every source against Sem.v evaluated
+    inside Coq on the parser model's tree.  A mismatch is a VIOLATION candidate (the implementation
+    contradicts the definitional semantics), returned as a list of indices; cases the implementation
+    cut short (BUDGET) are skipped."""
+    utab, lit_pt = front.oracle_tables(sources, tag=ctx.prop.lower() + "s")
+    stab, ptab, rtab = oracle_from_obs(obs_eval)
+    if oracle_extra:
+        for d, e in zip((stab, ptab, rtab), oracle_extra):
+            d.update(e)
+    hdr = header(utab, lit_pt, stab, ptab, rtab).replace("Import CorrRun.", "Import CorrRun CorrSem.")
+    items, index = [], []
+    for i, (s, o) in enumerate(zip(sources, obs_eval)):
+        if o.startswith("BUDGET") or o.startswith("CRASH") or o.startswith("TIMEOUT"):
+            ctx.count("sem-skipped-budget")
+            continue
+        wv = True if with_value is None else with_value[i]
+        c = canon_sem(o)
+        if not wv and c.startswith("OK "):
+            c = "OK | " + c.split(" | ", 1)[1]
+        items.append("SCase %s %d %s %s" % ("true" if wv else "false", fuel, vlib.coq_text(s), vlib.coq_hash(c)))
+        index.append(i)
+    footer = lambda: "Eval vm_compute in (mismatches (scheck utab stab ptab rtab) cases)."
+    shards, results, errors = vlib.run_coq_shards(ctx.prop, hdr, items, footer, shard_size=shard_size, tag=label, timeout=1500)
+    for e in errors:
+        ctx.broken.append(dict(kind="corr-shard", what=e))
+    bad = []
+    off = 0
+    for k, sh in enumerate(shards):
+        if k in results:
+            b = vlib.parse_index_list(results[k])
+            if b is None:
+                ctx.broken.append(dict(kind="corr-output", what=results[k][-300:]))
+            else:
+                bad += [index[off + j] for j in b]
+        off += len(sh)
+    out = []
+    for n, i in enumerate(bad):
+        spec = "(not recomputed)"
+        if n < 5:
+            wv = True if with_value is None else with_value[i]
+            fn = "model_sem utab stab ptab rtab %s %d %s" % ("true" if wv else "false", fuel, vlib.coq_text(sources[i]))
+            sh2, res2, err2 = vlib.run_coq_shards(ctx.prop, hdr, ["0%N"], lambda: "Eval vm_compute in (%s)." % fn, tag=label + "m")
+            spec = front.decode_text_output(res2.get(0, "")) if res2 else None
+        out.append((i, canon_sem(obs_eval[i]), spec))
+    log("%s: %d sources against Sem.v in Coq, %d contradict the specification" % (label, len(items), len(bad)))
+    return out
